@@ -44,6 +44,7 @@ func vLoadReplay(path string) error {
 	}
 	vReplay = vReplayT{}
 	vFailed, vUnmet, vNotes = nil, 0, nil
+	vWarns = 0
 	vPost = map[string]uint64{}
 	// let goroutines released by the previous replay exit before taking the baseline
 	last := -1
@@ -93,6 +94,19 @@ func vBytes(name string, n int) []uint8 {
 }
 
 func vBytesN(name string, n int) []uint8 { return vBytes(name, n) }
+
+// vFile reads a file of the repository's working tree.
+func vFile(rel string) []uint8 {
+	root := os.Getenv("VERIF_REPO")
+	if root == "" {
+		root = "/repo"
+	}
+	b, err := os.ReadFile(root + "/" + rel)
+	if err != nil {
+		panic(err)
+	}
+	return b
+}
 
 func vStr(name string, n int) string { return string(vBytes(name, n)) }
 
@@ -244,6 +258,16 @@ func vIteBool(c bool, a, b bool) bool {
 	}
 	return b
 }
+// vCase is an ordinary branch: the engine does not intercept it, so a symbolic
+// condition forks the path here (used where a bus access or a control decision
+// is conditional and cannot be expressed with vIte).
+func vCase(c bool) bool {
+	if c {
+		return true
+	}
+	return false
+}
+
 func vAnd(a, b bool) bool     { return a && b }
 func vOr(a, b bool) bool      { return a || b }
 func vImplies(a, b bool) bool { return !a || b }
@@ -281,6 +305,15 @@ var vBaseGoroutines int
 func vIsErrOf(err error, ctx context.Context) bool {
 	return err != nil && ctx.Err() != nil && errors.Is(err, ctx.Err())
 }
+
+// vWarnW is the writer harnesses give to warning loggers; vWarnCount counts
+// the warnings (engine: log calls; native: writes to vWarnW).
+type vWarnW struct{}
+
+var vWarns int
+
+func (vWarnW) Write(p []byte) (int, error) { vWarns++; return len(p), nil }
+func vWarnCount() int                      { return vWarns }
 
 func vNote(s string) { vNotes = append(vNotes, s) }
 func vEventCount(s string) int {
